@@ -251,6 +251,9 @@ func extraSpec(r int) (ls listSpec, ok bool) {
 		r /= 2
 		c.wrongKind = r % numWrong
 		r /= numWrong
+		if c.wrongKind == wInvalidByte {
+			c.payload = "caf\xe9 \xff" + c.payload
+		}
 		ls.shape = r % 2
 		r /= 2
 		ls.enc, ls.dir = r/2, r%2
@@ -747,7 +750,7 @@ func genCase(t *core.Tape) caseSpec {
 	c.emptyData = t.Bool(1, 8)
 	c.nilData = t.Bool(1, 8)
 	c.adjustPred = t.Bool(1, 2)
-	c.payload = [...]string{"p", "", "payload with spaces", "{\"k\":1}", "\x00\xff", "~", "line\n", "100% %s"}[t.Choose(8)]
+	c.payload = [...]string{"p", "", "payload with spaces", "{\"k\":1}", "\x00\xff", "~", "line\n", "100% %s", "caf\xe9 \xff\xff"}[t.Choose(9)]
 	if t.Bool(1, 48) {
 		c.payload = bigPayload // well beyond any buffer or chunk size a comparison might use
 	}
